@@ -190,6 +190,44 @@ def validate(run, files, checked, finding=False):
             return
 
 
+def run_ratchet(run):
+    """C40: format major version ratchets, crash-probed at every FS write op"""
+    design(run)
+    quick = run.tier == "quick"
+    binp = vlib.build_driver("internal/verif/dbdrv")
+    tdir = vlib.scratch("verif.ratchet.")
+    env = dict(VERIF_OUT=tdir, VERIF_SEED=str(run.seed), VERIF_PAIRS=str(10 if quick else 0))
+    code, out = vlib.run_driver(binp, "TestRatchet", env=env, timeout=3400)
+    if "DRIVER-DONE" not in out:
+        raise vlib.Inconclusive("dbdrv TestRatchet died:\n" + out[-3000:])
+    files = sorted(glob.glob(os.path.join(tdir, "*.ndjson")))
+    checked = ["crash40", "latest"]
+    validate(run, files, checked)
+    evals = 0
+    distinct = set()
+    pairs = set()
+    for f in files:
+        b = os.path.basename(f).split(".")[0].split("-")
+        pairs.add((b[-2], b[-1]))
+        for l in open(f):
+            if '"op":"crashprobe"' in l:
+                e = json.loads(l)
+                evals += 1
+                distinct.add(vlib.sha(json.dumps([os.path.basename(f), e.get("at"), e.get("choice"), e.get("fmv")])))
+    run.cov["evaluations"] = evals
+    run.cov["distinct_nontrivial"] = len(distinct)
+    run.cov["rule"] = ("one evaluation = one crash clone taken during/after RatchetFormatMajorVersion (every FS write op x survival subsets), reopened "
+                       "with the real Open: version within [last returned, in flight], contents a prefix with all acked entries; plus lowering refused, "
+                       "reads unchanged, clean reopen >= new version. distinct by (pair, crash point, subset, recovered version)")
+    run.cov["version_pairs"] = sorted(pairs)
+    if not run.violations:
+        kv.binding_demo_crash(run, files, checked)
+    for f in files[:1]:
+        run.sample({"trace": os.path.basename(f), "events": [json.loads(l) for l in list(open(f))[-6:]]})
+    run.assumptions += ["crash model = vfs.MemFS crash clones with explicit survival subsets",
+                        "every (from,to) pair of supported versions in thorough; the longest jump, the last single step and a seeded sample in quick"]
+
+
 def REGISTER(reg):
     note = ("Trusted: TLC; KV.tla as the statement of the history semantics; vfs.MemFS's crash model (the repository's own); the overlay "
             "helper CrashCloneWith that makes the survival choice explicit. Bounded: 12-key universe, 30-45 call histories, the listed "
@@ -208,6 +246,10 @@ def REGISTER(reg):
     reg("C13", "OnlyReadGuaranteedDurable reads are consistent and crash-proof", run_crash,
         "After every call an OnlyReadGuaranteedDurable iterator is fully read and crash clones are taken at that moment: TLC requires the read to "
         "equal a prefix state n and every clone to recover a prefix m >= n.", note, tech, "DESIGN 6/C13", level="model_checking", engine="crash")
+    reg("C40", "Format major version ratchets are monotone, durable and lossless", run_ratchet,
+        "From every supported version to every higher one with data in tables and WAL: crash clones at every FS write op of the ratchet x survival "
+        "subsets must recover a version in [old, new] (>= any returned ratchet) with the contents intact (TLC); lowering is refused; reads unchanged.",
+        note, tech, "DESIGN 6/C40", level="model_checking", engine="crash")
     reg("C22", "MANIFEST updates are atomic and durable", run_crash,
         "At every FS op on MANIFEST/marker/directory (and a sample of the others) x all survival subsets (<=5 items): Open must succeed and the "
         "version recovered read-only must be one of the last two versions the uncrashed MANIFEST describes (only the last at quiescent points).",
